@@ -487,7 +487,7 @@ def region_ok(facts, orc, sym, ver):
     return True
 
 
-@rule("P3", ["C04", "C01"], floor=300, doc="every raw memory write/read (bulk slice, raw_write_region) of every library and derived impl lies in a branch "
+@rule("P3", ["C04", "C01", "C02"], floor=300, doc="every raw memory write/read (bulk slice, raw_write_region) of every library and derived impl lies in a branch "
       "guarded by the Packed decision of that type: with all guards false no raw event is reachable, and writer and reader "
       "branch on the same guard")
 def p3(facts, tier):
@@ -507,12 +507,12 @@ def p3(facts, tier):
         raws = [s for s in raws if not (s[0] == "REGION" and region_ok(facts, orc, s, 0))]
         key = f["id"]
         if raws:
-            yield ob(["C04", "C01"], "P3", key, "violation", where(f), f"{f['id']}: raw memory event {raws[0]} is reachable although every Packed "
+            yield ob(["C04", "C01", "C02"], "P3", key, "violation", where(f), f"{f['id']}: raw memory event {raws[0]} is reachable although every Packed "
                      f"decision answers no (guards: {sorted(map(repr, guards))})")
         else:
             l1, _, _, _ = W.lang(f, 0, {g: True for g in guards}, ts, expand=False)
             has_raw = any(isinstance(s, tuple) and s[0] in RAW for s in rx.symbols(l1))
-            yield ob(["C04", "C01"], "P3", key, "pass", where(f), "no raw event without a Packed yes" +
+            yield ob(["C04", "C01", "C02"], "P3", key, "pass", where(f), "no raw event without a Packed yes" +
                      (f"; raw path guarded by {sorted(map(repr, guards))}" if has_raw else ""), nontrivial=has_raw)
 
 
@@ -631,7 +631,7 @@ def ancestors_(pm, n):
         p = pm.get(id(p))
 
 
-@rule("CB", ["C01", "C02", "C03", "C04", "C09", "C10", "C11", "C17", "C18"], floor=1, doc="the witness corpus (documented uses of #[derive(Savefile)] "
+@rule("CB", ["C01", "C02", "C03", "C04", "C06", "C09", "C10", "C11", "C12", "C17", "C18"], floor=1, doc="the witness corpus (documented uses of #[derive(Savefile)] "
       "and #[savefile_abi_exportable] over the enumerated definitions) compiles against /repo's current macros, including rustc's "
       "compile-time evaluation of the generated constants")
 def cb(facts, tier):
@@ -640,9 +640,9 @@ def cb(facts, tier):
         import re as _re
         m = _re.search(r"(error(\[E\d+\])?: .*?)(?:\n\n|$)", err, _re.S)
         first = (m.group(1) if m else err[:600]).strip()
-        yield ob(["C01", "C02", "C03", "C04", "C09", "C10", "C11", "C17", "C18"], "CB", "corpus-builds", "violation", "",
+        yield ob(["C01", "C02", "C03", "C04", "C06", "C09", "C10", "C11", "C12", "C17", "C18"], "CB", "corpus-builds", "violation", "",
                  "the witness corpus no longer compiles against the macros of /repo (rustc rejects generated code for a documented "
                  "definition): " + first[:900], rustc=err[-3000:])
     else:
-        yield ob(["C01", "C02", "C03", "C04", "C09", "C10", "C11", "C17", "C18"], "CB", "corpus-builds", "pass", "",
+        yield ob(["C01", "C02", "C03", "C04", "C06", "C09", "C10", "C11", "C12", "C17", "C18"], "CB", "corpus-builds", "pass", "",
                  f"{len(facts.corpus_meta.get('types', []))} corpus definitions and {len(facts.corpus_meta.get('traits', [])) or 6} traits compile")
